@@ -208,8 +208,9 @@ ThisUserSub(S, t, u, modeTxt) ==
         \* ownership transfer: old owner loses O in want and given, topic row and cache owner move
         old == c.owner
         S2 == IF ownerChange /\ old # "" /\ old # u
-              THEN [S1 EXCEPT !.subs[t][old].want = T(M(S1.subs[t][old].want) \ {"O"}),
-                              !.subs[t][old].given = T(M(S1.subs[t][old].given) \ {"O"}),
+              \* both columns of the old owner's row are written from the LIVE topic's copy
+              THEN [S1 EXCEPT !.subs[t][old].want = T(M(S1.cache[t].per[old].want) \ {"O"}),
+                              !.subs[t][old].given = T(M(S1.cache[t].per[old].given) \ {"O"}),
                               !.cache[t].per[old].want = T(M(S1.cache[t].per[old].want) \ {"O"}),
                               !.cache[t].per[old].given = T(M(S1.cache[t].per[old].given) \ {"O"}),
                               !.topics[t].owner = u,
